@@ -488,7 +488,21 @@ class ApplicationIOController(IOController, Application):
         if _debug: ApplicationIOController._debug("_app_request %r", apdu)
 
         # send it downstream, bypass the guard
-        super(ApplicationIOController, self).request(apdu)
+        try:
+            super(ApplicationIOController, self).request(apdu)
+        except Exception as err:
+            if _debug: ApplicationIOController._debug("    - request error: %r", err)
+
+            # it could not be sent, this is how the request ends
+            queue = self.queue_by_address.get(apdu.pduDestination, None)
+            if (not queue) or (not queue.active_iocb):
+                raise
+            queue.abort_io(queue.active_iocb, err)
+
+            # if the queue is empty and idle, forget about the controller
+            if not queue.ioQueue.queue and not queue.active_iocb:
+                del self.queue_by_address[apdu.pduDestination]
+            return
 
         # if this was an unconfirmed request, it's complete, no message
         if isinstance(apdu, UnconfirmedRequestPDU):
